@@ -205,11 +205,15 @@ type env struct {
 	restarts int
 
 	ops        []string
+	inputs     []string
 	labels     map[string]bool
 	nontrivial bool
 }
 
 func (e *env) op(format string, a ...any) { e.ops = append(e.ops, fmt.Sprintf(format, a...)) }
+
+// in records the inputs of a step (what identifies the case, without the server's answers).
+func (e *env) in(format string, a ...any) { e.inputs = append(e.inputs, fmt.Sprintf(format, a...)) }
 
 func (e *env) label(l string) {
 	e.labels[l] = true
@@ -659,6 +663,7 @@ func (e *env) doAppend(kind, box, lit string, plan map[string][]int) {
 		}
 	}
 
+	e.in("%s APPEND %s %s plan=%s", kind, box, sp, planString(plan))
 	e.arm(plan)
 	r := e.s.DoParts(imapc.T("APPEND "+bed.Quote(box)+" "), imapc.L([]byte(lit)))
 	kindOfFail, method := e.f.firstFail()
@@ -940,6 +945,7 @@ func run(t *rapid.T) {
 				verb = "MOVE"
 			}
 
+			e.in("UID %s %s %s->%s plan=%s", verb, set, src, dst, planString(plan))
 			e.arm(plan)
 			r := e.s.Do(fmt.Sprintf("UID %s %s %s", verb, set, bed.Quote(dst)))
 			kindOfFail, _ := e.f.firstFail()
@@ -1038,7 +1044,8 @@ func run(t *rapid.T) {
 				e.fail("SELECT %q refused: %v", recovery, r)
 			}
 
-			e.arm(e.drawPlan(t)) // no connector call is expected; a schedule must make no difference
+			plan := e.drawPlan(t)
+			e.arm(plan) // no connector call is expected; a schedule must make no difference
 
 			r1 := e.s.Do(fmt.Sprintf(`UID STORE %d +FLAGS (\Deleted)`, m.uid))
 			if !r1.OK() {
@@ -1054,6 +1061,7 @@ func run(t *rapid.T) {
 				e.s.Selected = ""
 			}
 
+			e.in("expunge recovery uid %d %s plan=%s", m.uid, how, planString(plan))
 			e.op("expunge uid %d of recovery with %s [%s] -> %s", m.uid, how, calls, r2.Status)
 			e.label("expunge-recovery:" + strings.Fields(how)[0])
 
@@ -1129,6 +1137,7 @@ func run(t *rapid.T) {
 
 			calls := e.f.calls()
 			e.arm(nil)
+			e.in("%s plan=%s", r.Cmd, planString(plan))
 			e.op("%s [%s] -> %s", r.Cmd, calls, r.Status)
 			e.label("refused-" + kind)
 
@@ -1166,6 +1175,7 @@ func run(t *rapid.T) {
 				}
 			}
 
+			e.in("%s %s", verb, pat)
 			e.op("%s %s -> listed=%v (non-empty=%v)", verb, pat, listed, nonEmpty)
 			e.label(strings.ToLower(verb) + "-pattern")
 
@@ -1197,6 +1207,7 @@ func run(t *rapid.T) {
 			}
 
 			e.login()
+			e.in("restart")
 			e.op("restart")
 			e.label("restart")
 			e.observe("restart", nil)
@@ -1218,7 +1229,7 @@ func run(t *rapid.T) {
 	}
 
 	sort.Strings(labels)
-	ev.Case(e.nontrivial, ev.Hash(strings.Join(e.ops, ";")), labels...)
+	ev.Case(e.nontrivial, ev.Hash(len(e.boxes), strings.Join(e.inputs, ";")), labels...)
 
 	if ev.WantSample() {
 		ev.Sample(e.ops)
